@@ -65,6 +65,7 @@ type user struct {
 	// cache comparison.
 	candExp, candPol map[string]string
 	dirty            map[string]bool // files the driver edited since the last commit / restore
+	absentUnlocked   map[string]bool // paths whose lock the server released for this user while the file was absent from the work tree
 	branch           string
 	// last clean unfiltered `git lfs locks` (for --cached) and last successful `locks --verify`
 	snapPlain        []lockRec
@@ -499,6 +500,10 @@ func (c *cse) checkWriteBits(u *user, event string, files []string) {
 			continue // ownership knowledge of u is ambiguous until the next comparison (push may or may not refresh)
 		}
 		c.count("write_bit_checks", 1)
+		if u.absentUnlocked[f] {
+			c.count("write_bit_checks_after_unlock_of_absent_file", 1)
+			delete(u.absentUnlocked, f)
+		}
 		if want {
 			c.count("write_bit_checks_expect_writable", 1)
 		} else {
